@@ -53,6 +53,9 @@ def run(ctx):
 
     # MC: exhaustive exploration of the reference model (all four rule sets)
     ctx.model_check("state/MCStateDB", "state/MCStateDB", timeout=ctx.pick(1800, 3600), name="MCStateDB", workers=4)
+    # transient storage, EIP-2929 access list, refund counter and logs under nested snapshots and across transactions
+    ctx.model_check("state/MCStateDB", ctx.pick("state/MCStateDBAuxQuick", "state/MCStateDBAux"), timeout=ctx.pick(1800, 3600),
+                    name="MCStateDBAux", workers=4)
     if ctx.thorough:
         r = ctx.model_check("state/MCStateDB", "state/MCStateDB2", timeout=5400, name="MCStateDB2", coverage=True, workers=4)
         if r.zero_cov:
